@@ -352,15 +352,16 @@ func (cr *ChunkReader) parseChunkHeaderBytes(header []byte, l *int) (int64, stri
 	rdr := bufio.NewReader(bytes.NewReader(header))
 
 	// After the first chunk each chunk header should start
-	// with "\n\r\n"
-	if !cr.isFirstHeader && stashLen == 0 {
+	// with "\n\r\n". These two bytes stay in the header (and in the
+	// stash, if the header turns out to be incomplete): they are skipped
+	// again when the parsing is resumed with more data
+	skipped := 0
+	if !cr.isFirstHeader {
 		err := readAndSkip(rdr, '\r', '\n')
 		if err != nil {
 			return cr.handleRdrErr(err, header)
 		}
-
-		copy(header, header[2:])
-		*l = *l - 2
+		skipped = 2
 	}
 
 	// read and parse the chunk size
@@ -449,7 +450,7 @@ func (cr *ChunkReader) parseChunkHeaderBytes(header []byte, l *int) (int64, stri
 		return cr.handleRdrErr(err, header)
 	}
 
-	ind := bytes.Index(header, []byte{'\r', '\n'})
+	ind := skipped + bytes.Index(header[skipped:], []byte{'\r', '\n'})
 	cr.isFirstHeader = false
 
 	return chunkSize, sig, ind + len(chunkHdrDelim) - stashLen, nil
